@@ -75,7 +75,23 @@ pub fn stratum(ps: &ProblemSpec) -> &'static str {
 /// frozen per-stratum envelopes for the 95th percentile of iteration counts (ceil(1.5 x baseline p95))
 pub const STRATUM_ENVELOPES: [(&str, u32); 4] = [("lp/qp/socp", 15), ("psd", 18), ("exp/pow", 21), ("genpow", 32)];
 
+/// stratum of the family by the balance of the two objective terms (max |P_ij| against ||q||_inf)
+pub fn cost_stratum(ps: &ProblemSpec) -> &'static str {
+    let np = ps.p.nzval.iter().fold(0.0f64, |a, v| a.max(v.abs()));
+    let nq = ps.q.iter().fold(0.0f64, |a, v| a.max(v.abs()));
+    if np == 0.0 {
+        "cost:linear"
+    } else if nq == 0.0 || np > 10.0 * nq {
+        "cost:P-dominant"
+    } else if nq > 10.0 * np {
+        "cost:q-dominant"
+    } else {
+        "cost:balanced"
+    }
+}
+
 pub struct Obs {
+    pub cost: &'static str,
     pub stratum: &'static str,
     pub status: SolverStatus,
     pub iters: u32,
@@ -84,7 +100,7 @@ pub struct Obs {
 }
 
 pub fn run(run: &mut PropRun) {
-    run.rule = format!("family G: proptest-generated problems with a planted strictly feasible primal-dual pair (interior margins >= 1e-1 relative by construction, sizes n<=60/m<=120 in thorough and n<=25/m<=50 in quick, all cone mixtures, entries <= 1e3), DEFAULT settings. Oracle (distributional): fraction Solved >= {REQUIRED_SOLVED} decided with a one-sided binomial margin, and p95(iterations) <= {P95_ENVELOPE} overall and <= 15/18/21/32 in the strata lp-qp-socp / psd / exp-pow / genpow (frozen envelopes = ceil(1.5 x baseline p95 of 10/12/14/21)). 40% of instances have P rescaled by 10^U(-3,3). non-trivial = m>=1 with a cone other than the zero cone; distinct = distinct serialised instance");
+    run.rule = format!("family G: proptest-generated problems with a planted strictly feasible primal-dual pair (interior margins >= 1e-1 relative by construction, sizes n<=60/m<=120 in thorough and n<=25/m<=50 in quick, all cone mixtures, entries <= 1e3), DEFAULT settings. Oracle (distributional): fraction Solved >= {REQUIRED_SOLVED} decided with a one-sided binomial margin, and p95(iterations) <= {P95_ENVELOPE} overall and <= 15/18/21/32 in the strata lp-qp-socp / psd / exp-pow / genpow (frozen envelopes = ceil(1.5 x baseline p95 of 10/12/14/21)). 40% of instances have P rescaled by 10^U(-3,3). The Solved-fraction requirement is also applied, with its own binomial margin, to each cost-balance sub-family of >= 2000 instances (they cut across the cone mixture; the cone strata are reported, not gated): (linear / balanced / P-dominant / q-dominant by max|P_ij| vs ||q||_inf, factor 10). non-trivial = m>=1 with a cone other than the zero cone; distinct = distinct serialised instance");
     run.assumptions = vec![
         "the gate is statistical: a slowdown or failure confined to <0.5% of G is invisible".into(),
         "PSD cones run on the harness' pure-Rust BLAS/LAPACK shim".into(),
@@ -101,7 +117,7 @@ pub fn run(run: &mut PropRun) {
             ctx.nontrivial();
         }
         let js = if out.status != SolverStatus::Solved { serde_json::to_string(c).unwrap_or_default() } else { String::new() };
-        obs.lock().unwrap().push(Obs { stratum: stratum(&c.ps), status: out.status, iters: out.iterations, class, case_json: js });
+        obs.lock().unwrap().push(Obs { cost: cost_stratum(&c.ps), stratum: stratum(&c.ps), status: out.status, iters: out.iterations, class, case_json: js });
         Ok(())
     };
     let quick = run.cfg.quick();
@@ -154,6 +170,29 @@ pub fn run(run: &mut PropRun) {
             strata_msgs.push(format!("stratum {name}: 95th percentile of iteration counts is {}, above its frozen envelope {env}", q(0.95)));
         }
     }
+    // Solved-fraction gates per sub-family (cone stratum, cost-balance stratum): every sub-family of G is itself a
+    // family of well-posed problems, so the same requirement with the same one-sided binomial margin applies
+    // (only judged with >= 2000 instances, where the margin is below 0.75 percentage points)
+    let mut sub_stats = vec![];
+    let names: Vec<&'static str> = STRATUM_ENVELOPES.iter().map(|x| x.0).chain(["cost:linear", "cost:balanced", "cost:P-dominant", "cost:q-dominant"]).collect();
+    // gated: the cost-balance sub-families only (each contains the whole cone mixture; baseline 99.7-99.8% Solved).
+    // The cone strata are reported but not gated: on the pinned tree the genpow stratum alone sits at ~99.1%, which the
+    // property (a requirement over G as a whole) does not forbid.
+    let gated = |name: &str| name.starts_with("cost:");
+    for name in names {
+        let tot = obs.iter().filter(|o| o.stratum == name || o.cost == name).count();
+        let ok = obs.iter().filter(|o| (o.stratum == name || o.cost == name) && o.status == SolverStatus::Solved).count();
+        if tot == 0 {
+            continue;
+        }
+        let f = ok as f64 / tot as f64;
+        let gate = REQUIRED_SOLVED - 4.5 * (REQUIRED_SOLVED * (1.0 - REQUIRED_SOLVED) / tot as f64).sqrt();
+        sub_stats.push(json!({"gated": gated(name) && tot >= 2000, "sub_family": name, "instances": tot, "solved": ok, "fraction": f, "gate": gate}));
+        if gated(name) && tot >= 2000 && f < gate {
+            strata_msgs.push(format!("sub-family {name}: only {:.4}% of {tot} well-posed instances ended Solved (requirement {}%, gate {:.4}%)", 100.0 * f, 100.0 * REQUIRED_SOLVED, 100.0 * gate));
+        }
+    }
+    run.extra.insert("sub_family_solved_fractions".into(), json!(sub_stats));
     run.extra.insert("strata".into(), json!(strata_stats));
     run.extra.insert("fraction_solved".into(), json!(frac));
     run.extra.insert("gate_threshold".into(), json!(threshold));
